@@ -664,6 +664,16 @@ fn op_stdcheck(_req: &J) -> J {
         out.push(format!("lines {:?}", s.lines().collect::<Vec<_>>()));
         out.push(format!("chars {:?} {:?}", s.chars().count(), s.len()));
     }
+    for s in ["", "aZ", "héllo", "Ж1 x", "a\u{212a}b"] {
+        out.push(format!("bytes {:?}", s.bytes().collect::<Vec<u8>>()));
+        out.push(format!("u8preds {:?}", s.bytes().map(|b| (b.is_ascii_alphabetic(), b.is_ascii_digit(), b.is_ascii(), b.is_ascii_whitespace(), b.to_ascii_uppercase())).collect::<Vec<_>>()));
+        out.push(format!("flat_map {:?}", s.chars().flat_map(char::to_lowercase).collect::<String>()));
+        out.push(format!("byte_get {:?} {:?} {:?}", s.as_bytes().get(0), s.as_bytes().get(2), s.as_bytes().first()));
+        out.push(format!("from_utf8 {:?}", std::str::from_utf8(s.as_bytes())));
+        let mut a = arrayvec::ArrayString::<4>::new();
+        let rs: Vec<bool> = s.chars().map(|c| a.try_push(c).is_ok()).collect();
+        out.push(format!("arraystring {:?} {:?} {:?} {:?}", rs, a.as_str(), a.len(), a.is_full()));
+    }
     let r: Result<i64, i64> = Ok(3);
     let e: Result<i64, i64> = Err(4);
     out.push(format!("result {:?} {:?} {:?} {:?} {:?} {:?} {:?} {:?}", r.and(e), e.and(r), r.or(e), e.or(r), r.map_or(9, |x| x + 1), e.map_or(9, |x| x + 1), r.is_ok_and(|x| x == 3), e.is_err_and(|x| x == 5)));
